@@ -122,12 +122,12 @@ Theorem video_inorder_fresh c nal maxp rate w s ts pls :
   pack_nal true c nal maxp = Ok pls ->
   (Z.of_nat (length pls) <= w)%Z -> (N.of_nat (length pls) <= 32768)%N ->
   feed_all (proto_of_codec c) rate w c_init (map upkt_arrival (mk_upkts (proto_of_codec c) s ts pls))
-  = Ok (mk_cstate [] 0 true (seq_add s (lenN pls - 1)), [(ts / (rate / 1000), avcc nal)%N]).
+  = Ok (mk_cstate [] 0 true (seq_add s (lenN pls - 1)), [(rtp_ms rate ts, avcc nal)%N]).
 Proof.
   intros Hh Hn Hr Hs Hp Hw Hl.
   destruct (calc_ok_packed c nal maxp pls Hh Hn Hp) as [Hne Hc].
   destruct Hn as (Hnn & Hb0 & Hty).
-  rewrite (fresh_frame (proto_of_codec c) rate w s (mk_upkts (proto_of_codec c) s ts pls) [(ts / (rate / 1000), avcc nal)%N]).
+  rewrite (fresh_frame (proto_of_codec c) rate w s (mk_upkts (proto_of_codec c) s ts pls) [(rtp_ms rate ts, avcc nal)%N]).
   - rewrite mk_upkts_last_seq by assumption. reflexivity.
   - apply (video_frame_good c nal maxp rate s ts pls); assumption.
   - intros i Hi. rewrite mk_upkts_length in Hi. apply mk_upkts_nth_seq; assumption.
